@@ -28,6 +28,7 @@ package checker
 //@ func checker.init
 //@   ensures[interfaceType] interfaceType != nil
 //@   ensures[basic-types] boolType != nil && integerType != nil && floatType != nil && stringType != nil && arrayType != nil && mapType != nil
+//@   ensures[interface-kind] kind(interfaceType) == 20
 //@   ensures[basic-kinds] boolType == rtype("bool") && integerType == rtype("int") && floatType == rtype("float64") && stringType == rtype("string")
 
 // the first error wins and carries the location of the offending node (C13)
